@@ -21,18 +21,32 @@ theorem runProperty_value (J : Json) (evalE : Bytes → Except Err Val) (validat
   | none => rfl
   | some p =>
     obtain ⟨tv, args⟩ := p
-    simp only [stageOrder_eq, runStagesOn, stageFn, nQuote, nExpr, nValue, nProps, nValidate, String.reduceEq,
-      ↓reduceIte, Bool.false_eq_true, bind, Except.bind, pure, Except.pure, Except.map]
-    cases hq : quoteStage J cfg tv with
-    | error e => simp
-    | ok s1 =>
-      cases he : exprStage J evalE s1 with
-      | error e => simp [he]
+    cases hf : findEl cDollar tv with
+    | none =>
+      -- no placeholder in the tag: the quote processor skips the property, TagVal is still TagStr
+      have hq : quoteStage J cfg tv = .ok tv := replaceAllF_none _ _ _ _ _ hf
+      simp only [stageOrder_eq, runStagesOn, stageFn, hf, hq, nQuote, nExpr, nValue, nProps, nValidate, String.reduceEq,
+        ↓reduceIte, bind, Except.bind, pure, Except.pure, Except.map]
+      cases he : exprStage J evalE tv with
+      | error e => simp
       | ok s2 =>
         cases hv : valueStage J args ty s2 with
-        | error e => simp [he, hv]
+        | error e => simp [hv]
         | ok b =>
-          cases hvd : validateStage validate args ty b <;> cases b <;> simp [he, hv, hvd] <;> simp_all
+          cases hvd : validateStage validate args ty b <;> cases b <;> simp [hv, hvd] <;> simp_all
+    | some r =>
+      simp only [stageOrder_eq, runStagesOn, stageFn, hf, nQuote, nExpr, nValue, nProps, nValidate, String.reduceEq,
+        ↓reduceIte, bind, Except.bind, pure, Except.pure, Except.map]
+      cases hq : quoteStage J cfg tv with
+      | error e => simp
+      | ok s1 =>
+        cases he : exprStage J evalE s1 with
+        | error e => simp [he]
+        | ok s2 =>
+          cases hv : valueStage J args ty s2 with
+          | error e => simp [he, hv]
+          | ok b =>
+            cases hvd : validateStage validate args ty b <;> cases b <;> simp [he, hv, hvd] <;> simp_all
 
 theorem runProperty_prefix (J : Json) (evalE : Bytes → Except Err Val) (validate : FVal → List Bytes → Bool)
     (cfg : Cfg) (tag : Bytes) (ty : FieldTy) :
@@ -42,18 +56,32 @@ theorem runProperty_prefix (J : Json) (evalE : Bytes → Except Err Val) (valida
   | none => rfl
   | some p =>
     obtain ⟨tv, args⟩ := p
-    simp only [stageOrder_eq, runStagesOn, stageFn, nQuote, nExpr, nValue, nProps, nValidate, String.reduceEq,
-      ↓reduceIte, Bool.false_eq_true, bind, Except.bind, pure, Except.pure, Except.map]
-    cases hq : quoteStage J cfg tv with
-    | error e => simp
-    | ok s1 =>
-      cases he : exprStage J evalE s1 with
-      | error e => simp [he]
+    cases hf : findEl cDollar tv with
+    | none =>
+      -- no placeholder in the tag: the quote processor skips the property, TagVal is still TagStr
+      have hq : quoteStage J cfg tv = .ok tv := replaceAllF_none _ _ _ _ _ hf
+      simp only [stageOrder_eq, runStagesOn, stageFn, hf, hq, nQuote, nExpr, nValue, nProps, nValidate, String.reduceEq,
+        ↓reduceIte, bind, Except.bind, pure, Except.pure, Except.map]
+      cases he : exprStage J evalE tv with
+      | error e => simp
       | ok s2 =>
         cases hv : prefixStage cfg args ty s2 with
-        | error e => simp [he, hv]
+        | error e => simp [hv]
         | ok b =>
-          cases hvd : validateStage validate args ty b <;> cases b <;> simp [he, hv, hvd] <;> simp_all
+          cases hvd : validateStage validate args ty b <;> cases b <;> simp [hv, hvd] <;> simp_all
+    | some r =>
+      simp only [stageOrder_eq, runStagesOn, stageFn, hf, nQuote, nExpr, nValue, nProps, nValidate, String.reduceEq,
+        ↓reduceIte, bind, Except.bind, pure, Except.pure, Except.map]
+      cases hq : quoteStage J cfg tv with
+      | error e => simp
+      | ok s1 =>
+        cases he : exprStage J evalE s1 with
+        | error e => simp [he]
+        | ok s2 =>
+          cases hv : prefixStage cfg args ty s2 with
+          | error e => simp [he, hv]
+          | ok b =>
+            cases hvd : validateStage validate args ty b <;> cases b <;> simp [he, hv, hvd] <;> simp_all
 
 /-! ### what the expression engine is handed -/
 
